@@ -85,3 +85,10 @@ func VerifTick[T TSTable, O any](db TSDB[T, O], ts int64) string {
 	}
 	return "ok"
 }
+
+// VerifOpts reads back the options an opened database runs with (what OpenTSDB was handed).
+func VerifOpts[T TSTable, O any](db TSDB[T, O]) (si, ttl IntervalRule, shardNum uint32, disableRetention, disableRotation bool) {
+	d := verifDB(db)
+	o := d.segmentController.getOptions()
+	return o.SegmentInterval, o.TTL, o.ShardNum, d.disableRetention, d.disableRotation
+}
